@@ -61,7 +61,9 @@ extern "C" void h_pool() {
   if (T == 0) pool.stop_all_workers();
 #else
 #ifdef VERIF_TSAN
-  for (int i = 0; i < T; i++) pool.add_task([i]() { running[i] = 1; for (volatile int k = 0; k < 20000; k++) {} counters[i]++; running[i] = 0; });
+  // native race confirmation (ThreadSanitizer): keep the workers busy while the producer stops the pool
+  for (int i = 0; i < T; i++) pool.add_task([i]() { running[i] = 1; for (volatile int k = 0; k < 300000; k++) {} counters[i]++; running[i] = 0; });
+  for (volatile int k = 0; k < 100000; k++) {}
 #else
   for (int i = 0; i < T; i++) pool.add_task([i]() { verif_assert(running[i] == 0, 2); running[i] = 1; counters[i]++; running[i] = 0; });
 #endif
